@@ -274,6 +274,13 @@ func (n *Net) Listener(addr string) *Listener {
 	return l
 }
 
+// EverListened: has anything ever been bound at addr (the gateway may still be starting up)?
+func (n *Net) EverListened(addr string) bool {
+	n.mu.Lock()
+	defer n.mu.Unlock()
+	return n.listeners[addr] != nil
+}
+
 // UDPListenConfig replaces pion/udp.ListenConfig.
 type UDPListenConfig struct{}
 
